@@ -370,8 +370,40 @@ def isMalformedFrame : Frame → Bool
   | .bad => true
   | .req r => illTypedBuiltin r
 
-def P_C06 (cfg : WireCfg) (fs : List Frame) (o : WireObs) : Verdict :=
+/-- does `pat` occur in `b` starting at its head -/
+def bytesPrefix : Bytes → Bytes → Bool
+  | [], _ => true
+  | _ :: _, [] => false
+  | p :: ps, b :: bs => p == b && bytesPrefix ps bs
+
+/-- the fixture's request tokens (`"token":"t…z"`, written without white space by the generators) that occur
+    in a raw byte string -/
+def rawTokens (b : Bytes) : List String :=
+  let pat : Bytes := "\"token\":\"".toUTF8.toList
+  let rec go : Nat → Bytes → List String → List String
+    | 0, _, acc => acc
+    | _, [], acc => acc
+    | n + 1, x :: xs, acc =>
+      if bytesPrefix pat (x :: xs) then
+        let rest := (x :: xs).drop pat.length
+        let tokB := rest.takeWhile (· != 34)
+        go n xs (String.fromUTF8! ⟨tokB.toArray⟩ :: acc)
+      else go n xs acc
+  go b.length b []
+
+/-- a truncated message — the bytes after the last NUL when the peer is done — is never answered, even when
+    only the terminator is missing -/
+def checkUnterminated (total : Bytes) (o : WireObs) : Verdict :=
+  let dangling := (frames total).2
+  let toks := (rawTokens dangling).filter fun t => t.startsWith "t" && t.endsWith "z"
+  if o.out.any fun rep => toks.any fun t => mentions t rep then some "reply-for-an-unterminated-message"
+  else none
+
+def P_C06 (cfg : WireCfg) (fs : List Frame) (total : Bytes) (o : WireObs) : Verdict :=
   if o.panicked then some "panic" else
+  match checkUnterminated total o with
+  | some r => some r
+  | none =>
   -- index of the first malformed frame
   let k := fs.findIdx isMalformedFrame
   if k ≥ fs.length then none else
